@@ -419,10 +419,18 @@ class SparseColumn(FlatColumn):
         """
         Materialize the sparse column into a full numpy array.
         """
-        materialized = numpy.full(
-            self.total_length, self.default_value
-        )  # Initialize with default values
-        materialized[self.indices] = self.values
+        values = numpy.asarray(self.values)
+        default = numpy.asarray(self.default_value)
+        # Use a type which holds the values exactly: their own type (widened if the
+        # default is of the same kind) when the default fits in it, otherwise objects
+        dtype = numpy.dtype(object)
+        if default.dtype.kind == values.dtype.kind:
+            dtype = numpy.result_type(default.dtype, values.dtype)
+        elif values.dtype.kind in "biuf" and default.dtype.kind in "biuf":
+            if values.dtype.type(self.default_value) == self.default_value:
+                dtype = values.dtype
+        materialized = numpy.full(self.total_length, self.default_value, dtype=dtype)
+        materialized[self.indices] = values
         return materialized
 
 
